@@ -370,6 +370,15 @@ func (e *c38Env) writer(db *badger.DB, w int, stop chan struct{}, nset, vlen int
 		}
 		err := e.call("Update", func() error {
 			return db.Update(func(txn *badger.Txn) error {
+				if e.pi("conflict", 0) == 1 && w%4 == 0 {
+					// read-modify-write of a shared key: concurrent writers get ErrConflict
+					if _, err := txn.Get([]byte("shared")); err != nil && err != badger.ErrKeyNotFound {
+						return err
+					}
+					if err := txn.Set([]byte("shared"), val[:8]); err != nil {
+						return err
+					}
+				}
 				for j := 0; j < nset; j++ {
 					if err := txn.Set(c38Key(w, i%500, j), val); err != nil {
 						return err
@@ -1004,15 +1013,25 @@ func c38Classify(r *c38Run) (sig, what string, evidence map[string]interface{}) 
 		switch {
 		case strings.Contains(first, "send on closed channel") && strings.Contains(msg, "sendToWriteCh"):
 			return "F14-commit-racing-close-hangs-or-panics", "a commit that passed the blockWrites check sent on db.writeCh after Close closed it: " + first, ev
-		case (strings.Contains(first, "close of closed channel") || strings.Contains(first, "send on closed channel") ||
-			strings.Contains(first, "nil pointer") || strings.Contains(first, "close of nil channel")) &&
-			(strings.Contains(r.Spec.Scenario, "close-vs-drop")):
+		case r.Spec.Scenario == "close-vs-drop":
+			// the scenario consists of nothing but Close called during a DropPrefix / DropAll
 			return "c38-close-racing-drop-panics", "Close concurrent with DropAll/DropPrefix crashed the process: " + first, ev
 		}
 		return "c38-process-panicked:" + r.Spec.Scenario, "the process panicked: " + first, ev
 	}
 	// --- a public call did not return within its deadline (dump attached) ---
 	if r.HaveRes && len(r.Res.Hung) > 0 {
+		var pre []c38Hung
+		for _, h := range r.Res.Hung {
+			if h.PreClose {
+				pre = append(pre, h)
+			}
+		}
+		if len(pre) == 0 {
+			// every stuck call began after Close had returned: use after Close, not a race with it
+			return "", "", ev
+		}
+		r.Res.Hung = pre
 		h := r.Res.Hung[0]
 		ev["hung"] = r.Res.Hung
 		ev["calls"] = r.Res.Calls
@@ -1029,11 +1048,17 @@ func c38Classify(r *c38Run) (sig, what string, evidence map[string]interface{}) 
 		case strings.Contains(st, "(*WaterMark).") && r.Res.CloseStarted > 0:
 			return "c38-newtransaction-racing-close-hangs", h.API + " never returned: blocked sending to the stopped watermark goroutine's channel after Close", ev
 		}
+		if r.Spec.Scenario == "close-vs-drop" {
+			return "c38-close-racing-drop-panics", fmt.Sprintf("Close concurrent with DropAll/DropPrefix: %s did not return (%d ms); goroutine dump attached", h.API, h.ElapsedMs), ev
+		}
 		return "c38-call-did-not-return:" + h.API, fmt.Sprintf("%s did not return within its deadline (%d ms); goroutine dump attached", h.API, h.ElapsedMs), ev
 	}
 	if r.Killed {
 		ev["stderr_tail"] = c38Tail(r.Stderr, 12000)
 		return "c38-scenario-did-not-finish:" + r.Spec.Scenario, "the scenario process exceeded its overall limit although no single call exceeded its deadline (SIGQUIT goroutine dump attached)", ev
+	}
+	if r.HaveRes && len(r.Res.Hung) > 0 {
+		return "", "", ev // only calls begun after Close returned were stuck
 	}
 	if !r.HaveRes || !r.Res.Completed || r.ExitCode != 0 {
 		ev["stderr_tail"] = c38Tail(r.Stderr, 6000)
@@ -1072,7 +1097,7 @@ func c38Plans(c *Ctx) []c38Plan {
 	pick := func(xs ...int) int { return xs[r.Intn(len(xs))] }
 	mk := func(i int) []c38Plan {
 		return []c38Plan{
-			{"stall", 1500 + 500*(i%2), 0, map[string]int{"mem": pick(64<<10, 128<<10), "nmem": pick(1, 2, 3), "l0": 1, "stall": pick(2, 3), "writers": pick(6, 10), "vlen": pick(300, 900)}},
+			{"stall", 1500 + 500*(i%2), 0, map[string]int{"mem": 64 << 10, "nmem": pick(1, 2), "l0": 1, "stall": pick(2, 3), "writers": pick(8, 12), "vlen": pick(300, 700), "nset": 10, "vt": 1024, "conflict": 1}},
 			{"close-inflight", 25, pick(6, 10), map[string]int{"mem": 256 << 10, "nmem": 2, "l0": 1, "stall": 2, "writers": pick(4, 8, 12), "nset": pick(20, 80)}},
 			{"drop", 1500, 0, map[string]int{"mem": 128 << 10, "nmem": 2, "l0": pick(1, 2), "stall": 3, "dropall": i % 2}},
 			{"gc-flatten", 1500, 0, map[string]int{"mem": 128 << 10, "nmem": 2, "l0": 2, "stall": 4, "vlen": pick(1500, 3000)}},
@@ -1186,6 +1211,11 @@ func (p *c38Prog) do(ls ...string) {
 		p.ins = append(p.ins, "Do "+l)
 	}
 }
+func (p *c38Prog) not(ls ...string) {
+	for _, l := range ls {
+		p.ins = append(p.ins, "Not "+l)
+	}
+}
 func c38Fills(f []bool) string {
 	xs := make([]string, len(f))
 	for i, b := range f {
@@ -1241,6 +1271,7 @@ func (p *c38Prog) stallPrefix(m, s int, full bool) (acked int, inflight int) {
 	// level 0 = s: the next flush stalls
 	one()
 	p.do("J_rotate", "(J_write true)", "J_done", "F_take")
+	p.not("F_add") // addLevel0Table waits: level 0 is at NumLevelZeroTablesStall
 	acked++
 	if !full {
 		return acked, 0
@@ -1251,6 +1282,7 @@ func (p *c38Prog) stallPrefix(m, s int, full bool) (acked int, inflight int) {
 		acked++
 	}
 	one() // memtable full, flushChan full: ensureRoomForWrite has no room
+	p.not("J_rotate", "(J_write false)", "J_done", "F_take")
 	return acked, 1
 }
 
@@ -1312,12 +1344,14 @@ func c38EmitCases(c *Ctx, r *c38Run, sig string) {
 		p := &c38Prog{}
 		p.do("E_commit", "L_acq", "H_ts", "H_check", "E_close", "C_gc", "C_sig", "W_sig", "W_default", "W_final", "J_done", "C_waitw",
 			"H_send", "C_closech", "C_mt", "C_stopf", "F_exit", "C_waitf", "K0_exit", "KO_exit", "C_waitc", "C_orc")
+		p.not("W_recv", "W_drain", "D_drain", "J_done") // nobody receives from writeCh any more
 		emit("f14-hang", false, p, c38Exp{closed: true, hungC: 1}, 0)
 		return
 	case sig == "c38-newtransaction-racing-close-hangs":
 		p := &c38Prog{}
 		p.do("E_commit", "L_acq", "H_ts", "E_read", "E_close", "C_gc", "C_sig", "W_sig", "W_default", "W_final", "J_done", "C_waitw",
 			"C_closech", "C_mt", "C_stopf", "F_exit", "C_waitf", "K0_exit", "KO_exit", "C_waitc", "C_orc", "H_check")
+		p.not("R_pass")
 		emit("newtxn-hang", false, p, c38Exp{blk: 1, closed: true, hungR: 1}, 0)
 		return
 	case sig != "":
@@ -1344,19 +1378,28 @@ func c38EmitCases(c *Ctx, r *c38Run, sig string) {
 				p.runQ([]bool{false})
 				e.rd = rd
 			}
-			for i := 0; i < a; i++ {
-				if c.Rng.Intn(3) == 0 {
-					p.do("E_commit")
-				} else {
-					p.send()
-				}
+			// phase A: explicit sends (the lock is free between them), the writer batches them
+			x := c.Rng.Intn(a + 1)
+			for i := 0; i < x; i++ {
+				p.send()
 				if i%3 == 2 {
 					p.run(1+c.Rng.Intn(9), fills)
 				}
-				if i < rd {
-					p.do("E_read")
-					e.rd++
-				}
+			}
+			// conflicts observed on the real DB: a commit that fails newCommitTs releases the lock
+			for i := 0; i < c38Min(c38Sum(up, "ErrConflict"), 1+v%2); i++ {
+				p.do("E_commit", "L_acq", "H_conflict")
+			}
+			// phase B: callers queue on writeChLock, readers begin; the scheduler serves them
+			for i := x; i < a; i++ {
+				p.do("E_commit")
+			}
+			for i := 0; i < rd; i++ {
+				p.do("E_read")
+				e.rd++
+			}
+			if v%2 == 0 {
+				p.run(3+c.Rng.Intn(20), fills)
 			}
 			e.ok += a
 			if r.Spec.Scenario == "gc-flatten" {
@@ -1398,6 +1441,10 @@ func c38EmitCases(c *Ctx, r *c38Run, sig string) {
 			}
 			e.rd = rd
 			p.do("E_close")
+			if okC > a && v >= 3 {
+				// the request still in writeCh is picked up by doWrites' closedCase drain loop
+				p.do("C_gc", "C_sig", "W_sig", "W_drain")
+			}
 			if v%2 == 1 && park > 0 {
 				p.do("E_commit") // a commit that begins after Close began
 				park++
